@@ -203,12 +203,13 @@ func codecWorker(arg json.RawMessage) interface{} {
 			}
 			out.Records++
 			got, rerr, pan := decode(enc)
-			allZero := sp.f.KeySize == 0 && sp.f.ValueSize == 0 && sp.f.Timestamp == 0
 			if pan != "" {
 				addV("panic", "entry-roundtrip:"+rwName, desc, pan)
 			} else if rerr != nil {
 				addV("roundtrip", "entry-error:"+rwName, desc, rerr.Error())
-			} else if got == nil && !allZero {
+			} else if got == nil {
+				// a written record has a non-zero checksum, so even one whose key, value and
+				// timestamp are all empty/zero must read back
 				addV("roundtrip", "entry-absent:"+rwName, desc)
 			} else if got != nil {
 				if d := sameEntry(got, sp); d != "" {
